@@ -99,25 +99,6 @@ func c07ListOnce(addr string, cr gw.Creds, bucket string, v2 bool, prefix, delim
 	return p, 200, ""
 }
 
-// c07InvalidRoot: the part of the prefix before its last '/' (Walk's root) is not a valid io/fs
-// path: an empty element, "." or ".." (no key can carry such a prefix; the listing is empty)
-func c07InvalidRoot(prefix string) bool {
-	i := strings.LastIndex(prefix, "/")
-	if i <= 0 {
-		return false
-	}
-	root := prefix[:i]
-	if root == "." {
-		return false
-	}
-	for _, e := range strings.Split(root, "/") {
-		if e == "" || e == "." || e == ".." {
-			return true
-		}
-	}
-	return false
-}
-
 func c07E2E(a lib.Args, res *lib.Result) error {
 	if a.ReplayInput() != nil {
 		return nil // replays are in-process inputs (c07Walk)
@@ -132,7 +113,7 @@ func c07E2E(a lib.Args, res *lib.Result) error {
 	}
 	defer g.Kill()
 	cr := rootCreds(cfg)
-	r := lib.NewRand(a.Seed + 7).Fork()
+	r := lib.NewRandStream(a.Seed, 72)
 	addr := g.Addr()
 
 	sets := [][]string{
@@ -142,7 +123,8 @@ func c07E2E(a lib.Args, res *lib.Result) error {
 		{"a/", "b"},                 // directory object, no children
 		{"a/", "a/b", "c"},          // directory object with children
 		{"a-b", "a-c", "a", "b"},    // non-'/' delimiter material
-		{"x/.sgwtmp", "x/z", "y"},   // a user key named like the bookkeeping directory
+		{"x/.sgwtmp", "x/z", "y"},   // a user key named like the bookkeeping directory (C07-fix-1: ordinary key)
+		{"u/.sgwtmp/v", "u/w"},      // a user directory so named below the top level
 		{"d/e/f/g", "d/e/h", "d/i"}, // deep
 	}
 	nrand := 4
@@ -178,9 +160,18 @@ func c07E2E(a lib.Args, res *lib.Result) error {
 		}
 		buckets = append(buckets, b)
 	}
-	// bookkeeping content: an open multipart upload in the first bucket
+	// bookkeeping content: an open multipart upload with one part in the first bucket
 	if rsp := gw.Do(addr, gw.Req{Method: "POST", Path: "/" + buckets[0].name + "/mp-object", Query: "uploads", Auth: "header", Creds: cr}); rsp.Status != 200 {
 		res.Note("e2e: CreateMultipartUpload answered %d", rsp.Status)
+	} else {
+		var mp struct {
+			UploadId string `xml:"UploadId"`
+		}
+		xml.Unmarshal(rsp.Body, &mp)
+		if rsp := gw.Do(addr, gw.Req{Method: "PUT", Path: "/" + buckets[0].name + "/mp-object", Query: "partNumber=1&uploadId=" + url.QueryEscape(mp.UploadId),
+			Body: r.Bytes(10), Auth: "header", Creds: cr}); rsp.Status != 200 {
+			res.Note("e2e: UploadPart answered %d", rsp.Status)
+		}
 	}
 
 	type run struct {
@@ -205,7 +196,8 @@ func c07E2E(a lib.Args, res *lib.Result) error {
 			}
 		}
 		queries = append(queries, c07Case{Delim: "/", Max: 0}, c07Case{Delim: "-", Max: 1}, c07Case{Prefix: "a//", Max: 5}, c07Case{Prefix: "../", Max: 5},
-			c07Case{Prefix: ".sgwtmp/", Max: 5}, c07Case{Prefix: ".sgwtmp/multipart/", Max: 50})
+			c07Case{Prefix: ".sgwtmp/", Max: 5}, c07Case{Prefix: ".sgwtmp/multipart/", Max: 50},
+			c07Case{Prefix: ".sgwtmp/", Delim: "/", Max: 5}, c07Case{Prefix: ".sgwtmp/multipart/", Delim: "/", Max: 50}, c07Case{Prefix: ".sgwtmp", Delim: "/", Max: 5})
 		for i := 0; i < nq; i++ {
 			c := c07RandCase(r, false)
 			c.Keys = b.keys
@@ -249,17 +241,15 @@ func c07E2E(a lib.Args, res *lib.Result) error {
 					p, st, msg := c07ListOnce(addr, cr, b.name, v2, q.Prefix, q.Delim, marker, token, q.Max)
 					if st != 200 {
 						ok = false
-						sig := "list:error-status"
-						if c07InvalidRoot(q.Prefix) {
-							sig = "walk:invalid-root-prefix"
-						}
-						res.Fail(lib.Failure{Kind: "property", Signature: sig, What: fmt.Sprintf("listing request answered %d instead of a (possibly empty) listing", st),
+						// includes prefixes whose root is not a valid io/fs path (`a//`, `../`): the empty
+						// listing, not 500 (repaired by C07-fix-3)
+						res.Fail(lib.Failure{Kind: "property", Signature: "list:error-status", What: fmt.Sprintf("listing request answered %d instead of a (possibly empty) listing", st),
 							Input: map[string]interface{}{"keys": b.keys, "prefix": q.Prefix, "delimiter": q.Delim, "marker": marker, "token": token, "max": q.Max, "v2": v2}, Impl: msg})
 						break
 					}
 					for _, k := range append(append([]string{}, p.objs...), p.cps...) {
-						if strings.Contains(k, ".sgwtmp") && !strings.Contains(strings.Join(b.keys, "\n"), ".sgwtmp") {
-							res.Fail(lib.Failure{Kind: "property", Signature: "walk:prefix-below-skipdir", What: "an internal bookkeeping name appears in a listing",
+						if k == ".sgwtmp" || strings.HasPrefix(k, ".sgwtmp/") {
+							res.Fail(lib.Failure{Kind: "property", Signature: "list:internal-name-listed", What: "an internal bookkeeping name appears in a listing (prefix below .sgwtmp: repaired by C07-fix-2)",
 								Input: map[string]interface{}{"keys": b.keys, "prefix": q.Prefix, "delimiter": q.Delim, "marker": marker, "max": q.Max, "v2": v2}, Impl: p.String()})
 							ok = false
 						}
